@@ -20,6 +20,9 @@ use std::io::{BufRead, Write};
 use std::ops::ControlFlow::{self, Continue};
 use std::sync::atomic::{AtomicU64, Ordering};
 use std::sync::Mutex;
+use dsi_bitstream::prelude::BE;
+use dsi_progress_logger::prelude::*;
+use webgraph::prelude::*;
 use webgraph::utils::Granularity;
 use webgraph::visits::breadth_first::{self, EventNoPred, EventPred};
 use webgraph::visits::{Parallel, Sequential};
@@ -47,12 +50,12 @@ struct VisitSpec {
 }
 
 #[derive(Clone, Copy, PartialEq, Eq, Debug)]
-enum Kind { Seq, Fair, FairNp, LowMem, Order, FromRoots }
+enum Kind { Seq, Fair, FairNp, LowMem, Order, FromRoots, CliPerm }
 impl Kind {
     fn name(self) -> &'static str {
         match self {
             Kind::Seq => "seq", Kind::Fair => "fair", Kind::FairNp => "fairnp",
-            Kind::LowMem => "lowmem", Kind::Order => "order", Kind::FromRoots => "fromroots",
+            Kind::LowMem => "lowmem", Kind::Order => "order", Kind::FromRoots => "fromroots", Kind::CliPerm => "cliperm",
         }
     }
 }
@@ -130,12 +133,54 @@ where V: Parallel<A> + Send, A: webgraph::visits::Event + Send,
     logs
 }
 
+/// compresses the graph (default BvComp flags), builds the Elias-Fano offsets and loads it
+/// as a random-access `BvGraph`
+fn run_case_bv(g: &Graph, kind: Kind, gran: i64, pool: &rayon::ThreadPool, visits: &[VisitSpec], jit: &Jitter)
+               -> Result<Vec<String>, String> {
+    let dir = tempfile::Builder::new().prefix("wgverif-visit").tempdir().map_err(|e| e.to_string())?;
+    let base = dir.path().join("g");
+    let vg = vec_graph(g);
+    BvComp::with_basename(&base).comp_graph::<BE>(&vg).map_err(|e| format!("{e:#}"))?;
+    store_ef_with_data(g.len(), base.with_extension("graph"), base.with_extension("offsets"),
+                       base.with_extension("ef"), &mut no_logging![]).map_err(|e| format!("{e:#}"))?;
+    let bv = BvGraph::with_basename(&base).load().map_err(|e| format!("{e:#}"))?;
+    run_case_on(&bv, g.len(), kind, gran, pool, visits, jit)
+}
+
+/// `webgraph perm bfs`: compresses the graph, runs the command-line entry point and reads
+/// the permutation it stored (ASCII, one integer per line)
+fn run_cli_perm(g: &Graph) -> Result<Vec<String>, String> {
+    let dir = tempfile::Builder::new().prefix("wgverif-visit").tempdir().map_err(|e| e.to_string())?;
+    let base = dir.path().join("g");
+    let vg = vec_graph(g);
+    BvComp::with_basename(&base).comp_graph::<BE>(&vg).map_err(|e| format!("{e:#}"))?;
+    store_ef_with_data(g.len(), base.with_extension("graph"), base.with_extension("offsets"),
+                       base.with_extension("ef"), &mut no_logging![]).map_err(|e| format!("{e:#}"))?;
+    let perm = dir.path().join("g.perm");
+    let args = webgraph_cli::perm::bfs::CliArgs {
+        basename: base.clone(),
+        perm: perm.clone(),
+        fmt: webgraph_cli::IntSliceFormat::Ascii,
+        log_interval: webgraph_cli::LogIntervalArg { log_interval: std::time::Duration::from_secs(3600) },
+    };
+    webgraph_cli::perm::bfs::main(args).map_err(|e| format!("{e:#}"))?;
+    let text = std::fs::read_to_string(&perm).map_err(|e| e.to_string())?;
+    let vals: Vec<String> = text.lines().map(|l| format!("P{}", l.trim())).collect();
+    Ok(vec![vals.join(",")])
+}
+
 fn run_case(g: &Graph, kind: Kind, gran: i64, pool: &rayon::ThreadPool, visits: &[VisitSpec], jit: &Jitter)
             -> Result<Vec<String>, String> {
+    if kind == Kind::CliPerm { return run_cli_perm(g); }
     let vg = vec_graph(g);
+    run_case_on(&vg, g.len(), kind, gran, pool, visits, jit)
+}
+
+fn run_case_on<G: RandomAccessGraph + Sync>(vg: &G, n: usize, kind: Kind, gran: i64, pool: &rayon::ThreadPool,
+                                            visits: &[VisitSpec], jit: &Jitter) -> Result<Vec<String>, String> {
     match kind {
         Kind::Seq => {
-            let mut visit = breadth_first::Seq::new(&vg);
+            let mut visit = breadth_first::Seq::new(vg);
             let mut logs = Vec::new();
             for spec in visits {
                 if spec.reset { visit.reset(); }
@@ -148,21 +193,20 @@ fn run_case(g: &Graph, kind: Kind, gran: i64, pool: &rayon::ThreadPool, visits: 
             }
             Ok(logs)
         }
-        Kind::Fair => Ok(run_par::<_, EventPred>(pool, breadth_first::ParFairPred::with_granularity(&vg, gran_of(gran)),
+        Kind::Fair => Ok(run_par::<_, EventPred>(pool, breadth_first::ParFairPred::with_granularity(vg, gran_of(gran)),
                                 visits, jit, ev_pred, |a| (a.node, a.distance))),
-        Kind::FairNp => Ok(run_par::<_, EventNoPred>(pool, breadth_first::ParFairNoPred::with_granularity(&vg, gran_of(gran)),
+        Kind::FairNp => Ok(run_par::<_, EventNoPred>(pool, breadth_first::ParFairNoPred::with_granularity(vg, gran_of(gran)),
                                 visits, jit, ev_nopred, |a| (a.node, a.distance))),
-        Kind::LowMem => Ok(run_par::<_, EventPred>(pool, breadth_first::ParLowMem::with_granularity(&vg, gran_of(gran)),
+        Kind::LowMem => Ok(run_par::<_, EventPred>(pool, breadth_first::ParLowMem::with_granularity(vg, gran_of(gran)),
                                 visits, jit, ev_pred, |a| (a.node, a.distance))),
         Kind::Order => {
             // the visitor may have been used before: BfsOrder resets it
-            let mut visit = breadth_first::Seq::new(&vg);
+            let mut visit = breadth_first::Seq::new(vg);
             let mut logs = Vec::new();
             for spec in visits {
                 if !spec.roots.is_empty() {
                     let _r: ControlFlow<(), ()> = visit.visit(spec.roots.clone(), |_e| Continue(()));
                 }
-                let n = g.len();
                 let mut items = Vec::new();
                 let mut lenok = true;
                 let mut it = (&mut visit).into_iter();
@@ -187,11 +231,11 @@ fn run_case(g: &Graph, kind: Kind, gran: i64, pool: &rayon::ThreadPool, visits: 
             }
             Ok(logs)
         }
+        Kind::CliPerm => Err("cliperm-needs-a-basename".to_string()),
         Kind::FromRoots => {
-            let mut visit = breadth_first::Seq::new(&vg);
+            let mut visit = breadth_first::Seq::new(vg);
             let mut logs = Vec::new();
             for spec in visits {
-                let n = g.len();
                 let mut items = Vec::new();
                 match visit.iter_from_roots(spec.roots.clone()) {
                     Err(_) => items.push("ERR".to_string()),
@@ -330,17 +374,24 @@ impl Pools {
 
 fn emit_case(out: &mut impl Write, id: &str, g: &Graph, kind: Kind, gran: i64, thr: usize, visits: &[VisitSpec],
              pools: &Pools, jit: &Jitter) {
+    emit_case_on(out, id, g, kind, gran, thr, visits, pools, jit, false)
+}
+
+fn emit_case_on(out: &mut impl Write, id: &str, g: &Graph, kind: Kind, gran: i64, thr: usize, visits: &[VisitSpec],
+                pools: &Pools, jit: &Jitter, bv: bool) {
     // announce the case so that the watchdog can name it
     writeln!(out, "#start id={id}").unwrap();
     out.flush().unwrap();
-    let r = catch(std::panic::AssertUnwindSafe(|| run_case(g, kind, gran, pools.get(thr), visits, jit)));
+    let r = catch(std::panic::AssertUnwindSafe(|| {
+        if bv { run_case_bv(g, kind, gran, pools.get(thr), visits, jit) } else { run_case(g, kind, gran, pools.get(thr), visits, jit) }
+    }));
     let (status, logs) = match r {
         Ok(Ok(l)) => ("ok".to_string(), l),
         Ok(Err(e)) => (format!("err:{}", sanitize(&e)), vec![]),
         Err(p) => (format!("panic:{}", sanitize(&p)), vec![]),
     };
-    let mut line = format!("visit id={id} kind={} n={} g={} gran={gran} thr={thr} nv={} status={status}",
-                           kind.name(), g.len(), fmt_lists(g), visits.len());
+    let mut line = format!("visit id={id} kind={} n={} g={} gran={gran} thr={thr} bv={} nv={} status={status}",
+                           kind.name(), g.len(), fmt_lists(g), bv as u8, visits.len());
     for (i, s) in visits.iter().enumerate() {
         line.push_str(&format!(" x{i}={} r{i}={} b{i}={} m{i}={} s{i}={}", s.reset as u8, fmt_ints(&s.roots),
                                fmt_ints(&s.filt.blocked), s.filt.maxd, s.filt.salt));
@@ -435,7 +486,17 @@ fn child(seed: u64, count: usize, exh: usize, out: &mut impl Write) {
         let gran = gen_gran(&mut rng, n);
         let level = if n <= 100 { 2 } else { 1 };
         let jit = Jitter { seed: rng.next(), ctr: AtomicU64::new(0), level };
-        emit_case(out, &format!("r{i}"), &g, kind, gran, thr, &visits, &pools, &jit);
+        // one case in six runs on the compressed BvGraph instead of the VecGraph
+        let bv = n > 0 && rng.chance(1, 6);
+        emit_case_on(out, &format!("r{i}"), &g, kind, gran, thr, &visits, &pools, &jit, bv);
+    }
+    // the command-line BFS permutation (cli/src/perm/bfs.rs) on compressed graphs
+    for i in 0..(count / 25).max(4) {
+        let n = rng.range(1, 60);
+        let g = gen_shared(&mut rng, n);
+        let v = vec![VisitSpec { reset: false, roots: vec![], filt: Filt { blocked: vec![], bl: vec![false; n], maxd: NO_MAXD, salt: 0 } }];
+        let jit = Jitter { seed: 1, ctr: AtomicU64::new(0), level: 0 };
+        emit_case(out, &format!("c{i}"), &g, Kind::CliPerm, 1, 1, &v, &pools, &jit);
     }
     // malformed: a root outside the graph must be refused with a panic, never a wrong answer
     for i in 0..4 {
